@@ -11,7 +11,7 @@ DEV = '{"g92sign"}'
 COMMON_INV = ["EpisodeAgreement"]
 
 
-def motion(profile, tier, g92=False):
+def motion(profile, tier, g92=False, home=False):
     exact = profile == "exact"
     consts = {
         "Dev": DEV, "UM": 1 if exact else 2, "UI": 2 if exact else 4,
@@ -25,10 +25,15 @@ def motion(profile, tier, g92=False):
     inv = ["InvC01", "InvC02", "InvC03", "InvC09", "InvC14", "EpisodeAgreement", "TrackedIsGhost"]
     if not g92:
         inv.append("NoKnownFinding")
+    if home:
+        # full and single-axis homing at any point (C03's quantifier excludes homing inside an
+        # episode: InvC03 is scoped accordingly by the contract); no @-commands, no arcs
+        consts.update({"UseHome": "TRUE", "UseAt": "FALSE", "UseArcs": "FALSE",
+                       "Depth": 5 if tier == "quick" else 7})
     return {"module": "MC_Motion", "consts": consts, "inv": inv, "profile": profile,
             "first": [("rect", "r1", 1, 1, 2, 2) if exact else ("rect", "r1", 1, 1, 3, 3)],
             "simdepth": 13 if tier == "quick" else 16, "escale": None,
-            "name": "MC_Motion/%s%s" % (profile, "+g92" if g92 else "")}
+            "name": "MC_Motion/%s%s%s" % (profile, "+g92" if g92 else "", "+home" if home else "")}
 
 
 def extrusion(kind, tier):
@@ -78,7 +83,9 @@ def deferred(tier):
 
 def for_property(prop, tier):
     """The slices whose exhaustive run and behaviours a property's check uses."""
-    if prop in ("C01", "C14"):
+    if prop == "C01":
+        return [motion("exact", tier), motion("frames", tier), motion("exact", tier, home=True)]
+    if prop == "C14":
         return [motion("exact", tier), motion("frames", tier)]
     if prop == "C03":
         return [motion("frames", tier), motion("exact", tier)]
